@@ -1567,6 +1567,10 @@ class PCE500Emulator:
             "call_depth": int(self.call_depth),
             "call_sub_level": int(cpu_snapshot.call_sub_level),
             "temps": {str(k): int(v) for k, v in cpu_snapshot.temps.items()},
+            # Same field and values as the Rust core ("running" / "halted" / "off").
+            "power_state": "halted"
+            if getattr(getattr(self.cpu, "state", None), "halted", False)
+            else "running",
             "timer": timer_info,
             "interrupts": interrupts,
             "keyboard": keyboard_state,
@@ -1658,8 +1662,10 @@ class PCE500Emulator:
             self.keyboard.load_state(keyboard_state)
 
         reg_values = _unpack_register_bytes(registers_blob)
+        # Rust snapshots key the scratch registers as "TEMP3", Python ones as "3".
         temps = {
-            int(key): int(value) for key, value in (metadata.get("temps") or {}).items()
+            int(str(key).removeprefix("TEMP")): int(value)
+            for key, value in (metadata.get("temps") or {}).items()
         }
         snapshot = CPURegistersSnapshot(
             pc=reg_values["pc"],
@@ -1674,6 +1680,13 @@ class PCE500Emulator:
             call_sub_level=int(metadata.get("call_sub_level", 0)),
         )
         self.cpu.apply_snapshot(snapshot)
+        # A machine saved while halted (or powered off) must not resume running.
+        cpu_state = getattr(self.cpu, "state", None)
+        if cpu_state is not None and hasattr(cpu_state, "halted"):
+            cpu_state.halted = metadata.get("power_state", "running") in (
+                "halted",
+                "off",
+            )
 
         snapshot_backend = metadata.get("backend")
         if backend and snapshot_backend and backend != snapshot_backend:
